@@ -274,10 +274,10 @@ class Family:
                 "impl %s {\n"
                 "    pub fn decode__%s<I: ByteSrc>(%s: &mut BitIter<I>, Ghost(p0_): Ghost<Seq<bool>>) -> (r: Result<%s, decode::Error>)\n"
                 "        requires\n            old(%s).wf0(),\n            %d <= p0_.len(),\n            old(%s).pending() =~= p0_.skip(%d),\n"
-                "        ensures\n            final(%s).wf0(),\n            r == dec_%s__%s(p0_).0,\n"
+                "        ensures\n            final(%s).wf0(),\n            old(%s).wf() ==> final(%s).wf(),\n            r == dec_%s__%s(p0_).0,\n"
                 "            final(%s).pending() =~= p0_.skip(dec_%s__%s(p0_).1 as int),\n"
                 "    {\n        hide(BitIter::pending);\n        reveal(dec_%s__%s);\n%s        %s\n    }\n}"
-                % (self.E, self.cname(path), b, self.E, b, d, b, d, b, self.s, self.cname(path), b, self.s, self.cname(path), self.s, self.cname(path), probe, self._exec(t, path, path, 2)))
+                % (self.E, self.cname(path), b, self.E, b, d, b, d, b, b, b, self.s, self.cname(path), b, self.s, self.cname(path), self.s, self.cname(path), probe, self._exec(t, path, path, 2)))
         return self._mods(out, "exec", self.K)
 
     def exec_root_body(self):
